@@ -121,57 +121,150 @@ fn swap_join_condition(cond: &BoundExpression) -> BoundExpression {
     }
 }
 
-/// Shifts column indices by offset.
-fn shift_columns(expr: &BoundExpression, offset: i32) -> Option<BoundExpression> {
+/// Visits the index of every column referenced by `expr`. Returns false if the expression contains a
+/// node whose column references cannot be enumerated here (sub-queries, CASE, aggregates).
+fn for_each_column(expr: &BoundExpression, f: &mut dyn FnMut(usize)) -> bool {
     match expr {
         BoundExpression::ColumnBinding(c) => {
-            let new_idx = c.column_idx as i32 + offset;
-            if new_idx < 0 {
-                None
-            } else {
-                Some(BoundExpression::ColumnBinding(Binding {
-                    column_idx: new_idx as usize,
-                    ..*c
-                }))
-            }
+            f(c.column_idx);
+            true
         }
+        BoundExpression::Literal { .. } => true,
+        BoundExpression::BinaryOp { left, right, .. } => {
+            let l = for_each_column(left, f);
+            let r = for_each_column(right, f);
+            l && r
+        }
+        BoundExpression::UnaryOp { expr, .. } | BoundExpression::IsNull { expr, .. } => {
+            for_each_column(expr, f)
+        }
+        BoundExpression::InList { expr, list, .. } => {
+            let mut ok = for_each_column(expr, f);
+            for item in list {
+                ok &= for_each_column(item, f);
+            }
+            ok
+        }
+        BoundExpression::Between {
+            expr, low, high, ..
+        } => {
+            let a = for_each_column(expr, f);
+            let b = for_each_column(low, f);
+            let c = for_each_column(high, f);
+            a && b && c
+        }
+        BoundExpression::Function { args, .. } => {
+            let mut ok = true;
+            for arg in args {
+                ok &= for_each_column(arg, f);
+            }
+            ok
+        }
+        _ => false,
+    }
+}
+
+/// Rebuilds `expr` with every column index replaced by `f(index)`. Returns None if `f` rejects an
+/// index or the expression contains a node that cannot be rewritten here.
+fn map_columns(
+    expr: &BoundExpression,
+    f: &dyn Fn(usize) -> Option<usize>,
+) -> Option<BoundExpression> {
+    Some(match expr {
+        BoundExpression::ColumnBinding(c) => BoundExpression::ColumnBinding(Binding {
+            column_idx: f(c.column_idx)?,
+            ..*c
+        }),
+        BoundExpression::Literal { .. } => expr.clone(),
         BoundExpression::BinaryOp {
             left,
             op,
             right,
             result_type,
-        } => Some(BoundExpression::BinaryOp {
-            left: Box::new(shift_columns(left, offset)?),
+        } => BoundExpression::BinaryOp {
+            left: Box::new(map_columns(left, f)?),
             op: *op,
-            right: Box::new(shift_columns(right, offset)?),
+            right: Box::new(map_columns(right, f)?),
             result_type: *result_type,
-        }),
-        BoundExpression::Literal { .. } => Some(expr.clone()),
-        _ => Some(expr.clone()),
-    }
+        },
+        BoundExpression::UnaryOp {
+            op,
+            expr,
+            result_type,
+        } => BoundExpression::UnaryOp {
+            op: *op,
+            expr: Box::new(map_columns(expr, f)?),
+            result_type: *result_type,
+        },
+        BoundExpression::IsNull { expr, negated } => BoundExpression::IsNull {
+            expr: Box::new(map_columns(expr, f)?),
+            negated: *negated,
+        },
+        BoundExpression::InList {
+            expr,
+            list,
+            negated,
+        } => BoundExpression::InList {
+            expr: Box::new(map_columns(expr, f)?),
+            list: list
+                .iter()
+                .map(|item| map_columns(item, f))
+                .collect::<Option<Vec<_>>>()?,
+            negated: *negated,
+        },
+        BoundExpression::Between {
+            expr,
+            low,
+            high,
+            negated,
+        } => BoundExpression::Between {
+            expr: Box::new(map_columns(expr, f)?),
+            low: Box::new(map_columns(low, f)?),
+            high: Box::new(map_columns(high, f)?),
+            negated: *negated,
+        },
+        BoundExpression::Function {
+            func,
+            args,
+            distinct,
+            return_type,
+        } => BoundExpression::Function {
+            func: func.clone(),
+            args: args
+                .iter()
+                .map(|arg| map_columns(arg, f))
+                .collect::<Option<Vec<_>>>()?,
+            distinct: *distinct,
+            return_type: *return_type,
+        },
+        _ => return None,
+    })
+}
+
+/// Shifts column indices by offset.
+fn shift_columns(expr: &BoundExpression, offset: i32) -> Option<BoundExpression> {
+    map_columns(expr, &|idx| {
+        let new_idx = idx as i32 + offset;
+        if new_idx < 0 {
+            None
+        } else {
+            Some(new_idx as usize)
+        }
+    })
 }
 
 /// Checks if all columns in expr have index >= min.
 fn all_columns_ge(expr: &BoundExpression, min: usize) -> bool {
-    match expr {
-        BoundExpression::ColumnBinding(c) => c.column_idx >= min,
-        BoundExpression::BinaryOp { left, right, .. } => {
-            all_columns_ge(left, min) && all_columns_ge(right, min)
-        }
-        BoundExpression::Literal { .. } => true,
-        _ => true,
-    }
+    let mut all = true;
+    let complete = for_each_column(expr, &mut |idx| all &= idx >= min);
+    complete && all
 }
 
 /// Checks if any column in expr is in range [start, end).
 fn any_column_in_range(expr: &BoundExpression, start: usize, end: usize) -> bool {
-    match expr {
-        BoundExpression::ColumnBinding(c) => c.column_idx >= start && c.column_idx < end,
-        BoundExpression::BinaryOp { left, right, .. } => {
-            any_column_in_range(left, start, end) || any_column_in_range(right, start, end)
-        }
-        _ => false,
-    }
+    let mut any = false;
+    let complete = for_each_column(expr, &mut |idx| any |= idx >= start && idx < end);
+    any || !complete
 }
 
 /// Combines predicates with AND.
@@ -301,78 +394,24 @@ fn classify_predicates(
     }
 }
 
-/// Checks if expression uses left/right columns.
+/// Checks if expression uses left/right columns. An expression whose column references cannot be
+/// enumerated counts as using both sides, so it stays where it is.
 fn check_column_usage(expr: &BoundExpression, left_cols: usize) -> (bool, bool) {
-    match expr {
-        BoundExpression::ColumnBinding(c) => {
-            if c.column_idx < left_cols {
-                (true, false)
-            } else {
-                (false, true)
-            }
+    let (mut l, mut r) = (false, false);
+    let complete = for_each_column(expr, &mut |idx| {
+        if idx < left_cols {
+            l = true;
+        } else {
+            r = true;
         }
-        BoundExpression::BinaryOp { left, right, .. } => {
-            let (l1, r1) = check_column_usage(left, left_cols);
-            let (l2, r2) = check_column_usage(right, left_cols);
-            (l1 || l2, r1 || r2)
-        }
-        BoundExpression::UnaryOp { expr, .. } | BoundExpression::IsNull { expr, .. } => {
-            check_column_usage(expr, left_cols)
-        }
-        BoundExpression::InList { expr, list, .. } => {
-            let (mut l, mut r) = check_column_usage(expr, left_cols);
-            for i in list {
-                let (l2, r2) = check_column_usage(i, left_cols);
-                l = l || l2;
-                r = r || r2;
-            }
-            (l, r)
-        }
-        BoundExpression::Between {
-            expr, low, high, ..
-        } => {
-            let (l1, r1) = check_column_usage(expr, left_cols);
-            let (l2, r2) = check_column_usage(low, left_cols);
-            let (l3, r3) = check_column_usage(high, left_cols);
-            (l1 || l2 || l3, r1 || r2 || r3)
-        }
-        _ => (false, false),
-    }
+    });
+    if complete { (l, r) } else { (true, true) }
 }
 
 /// Rewrites column references using a mapping.
 fn rewrite_with_mapping(expr: &BoundExpression, mapping: &[usize]) -> BoundExpression {
-    match expr {
-        BoundExpression::ColumnBinding(c) => BoundExpression::ColumnBinding(Binding {
-            column_idx: mapping.get(c.column_idx).copied().unwrap_or(c.column_idx),
-            ..*c
-        }),
-        BoundExpression::BinaryOp {
-            left,
-            op,
-            right,
-            result_type,
-        } => BoundExpression::BinaryOp {
-            left: Box::new(rewrite_with_mapping(left, mapping)),
-            op: *op,
-            right: Box::new(rewrite_with_mapping(right, mapping)),
-            result_type: *result_type,
-        },
-        BoundExpression::UnaryOp {
-            op,
-            expr,
-            result_type,
-        } => BoundExpression::UnaryOp {
-            op: *op,
-            expr: Box::new(rewrite_with_mapping(expr, mapping)),
-            result_type: *result_type,
-        },
-        BoundExpression::IsNull { expr, negated } => BoundExpression::IsNull {
-            expr: Box::new(rewrite_with_mapping(expr, mapping)),
-            negated: *negated,
-        },
-        _ => expr.clone(),
-    }
+    map_columns(expr, &|idx| Some(mapping.get(idx).copied().unwrap_or(idx)))
+        .unwrap_or_else(|| expr.clone())
 }
 
 /// Creates a column reference expression.
